@@ -10,7 +10,8 @@ FILES = ["litedram/frontend/bist.py", "litedram/frontend/dma.py"]
 LEVEL = "model_checking"
 TECHNIQUE = ("bounded model checking (z3 QF_BV) of the elaborated real _LiteDRAMBISTGenerator and _LiteDRAMBISTChecker running "
              "side by side with symbolic base/end/length/random flags, arbitrary memory contents (every read word a fresh solver "
-             "variable = every corruption set at once) and arbitrary memory timing; replay on migen.sim")
+             "variable = every corruption set at once) and arbitrary memory timing, native and AXI ports; product benches of two copies "
+             "for 'a core reset rewinds the sequence'; replay on migen.sim")
 EXPLANATION = ("Generator and checker are started with the same symbolic settings.  The generator's k-th address is logged at the "
                "port and its k-th word where it enters the DMA writer, the checker's k-th returned word where it leaves the DMA reader "
                "(in-order transport inside the DMA engines is C12's subject); the checker's k-th read address must equal it and its error count at done must equal the number of "
